@@ -178,7 +178,8 @@ fn hub_step(case: &Value, base: &Path) -> Value {
     if case.get("only_setup").and_then(Value::as_bool) == Some(true) {
         return json!({"setup": true});
     }
-    let path = case["path"].as_str().unwrap_or("");
+    let path_owned = case["path"].as_str().unwrap_or("").replace("@ROOT@", root.to_str().unwrap());
+    let path = path_owned.as_str();
     let cur_bytes = std::fs::read(root.join(path)).ok();
     let current = cur_bytes.as_ref().map(|b| *blake3::hash(b).as_bytes());
     let expected = opt_hash(&case["expected"], current);
@@ -232,6 +233,14 @@ fn frame_read(case: &Value) -> Value {
     wire.extend(std::iter::repeat(fill).take(n));
     if let Some(h) = case["body_hex"].as_str() {
         wire.extend(unhex(h));
+    }
+    if case["what"].as_str() == Some("inflated") {
+        // a COMPLETE, valid request item whose length prefix announces `slack` more bytes than arrive before EOF
+        let mut f = Vec::new();
+        wire::write_frame(&mut f, &wire::Request::Delete { path: "keep.txt".into(), expected: None }).unwrap();
+        let n = u32::from_be_bytes([f[0], f[1], f[2], f[3]]) + case["slack"].as_u64().unwrap_or(64) as u32;
+        f[0..4].copy_from_slice(&n.to_be_bytes());
+        wire = f;
     }
     let mut rd = Chunked { data: &wire, pos: 0, chunk: case["chunk"].as_u64().unwrap_or(1 << 20) as usize };
     MAX_REQ.store(0, Ordering::Relaxed);
@@ -334,7 +343,25 @@ fn bisync_history(case: &Value, base: &Path) -> Value {
     let mut runs = Vec::new();
     let mut swapped = false;
     for step in case["steps"].as_array().unwrap() {
-        if let Some(s) = step.get("set") {
+        if let Some(s) = step.get("set_ranked") {
+            // content chosen by the RANK of its blake3 among a fixed pool (so a history can say "the smaller digest")
+            let mut pool: Vec<String> = (0..12).map(|i| format!("pool-content-{i}\n")).collect();
+            pool.sort_by_key(|c| *blake3::hash(c.as_bytes()).as_bytes());
+            let root = if s[0].as_str() == Some("A") { &ra } else { &rb };
+            let p = root.join(s[1].as_str().unwrap());
+            if let Some(d) = p.parent() {
+                std::fs::create_dir_all(d).unwrap();
+            }
+            std::fs::write(&p, pool[s[2].as_u64().unwrap() as usize].as_bytes()).unwrap();
+        } else if let Some(s) = step.get("edit_conflict") {
+            // rewrite the (first) conflict copy of a path on one side
+            let root = if s[0].as_str() == Some("A") { &ra } else { &rb };
+            let prefix = format!("{}.conflict-", s[1].as_str().unwrap());
+            let names: Vec<String> = tree_of(root).into_keys().filter(|k| k.starts_with(&prefix)).collect();
+            if let Some(n) = names.first() {
+                std::fs::write(root.join(n), unhex(s[2].as_str().unwrap())).unwrap();
+            }
+        } else if let Some(s) = step.get("set") {
             let root = if s[0].as_str() == Some("A") { &ra } else { &rb };
             let p = root.join(s[1].as_str().unwrap());
             if s[2].is_null() {
@@ -355,6 +382,7 @@ fn bisync_history(case: &Value, base: &Path) -> Value {
                 "empty" => { let _ = std::fs::write(&ap, b""); }
                 "truncate" => { if let Ok(b) = std::fs::read(&ap) { let _ = std::fs::write(&ap, &b[..b.len() / 2]); } }
                 "garbage" => { let _ = std::fs::write(&ap, b"{\"not\": \"an archive\"}"); }
+                "version0" => { if let Ok(t) = std::fs::read_to_string(&ap) { let _ = std::fs::write(&ap, t.replace("\"format_version\": 1", "\"format_version\": 0")); } }
                 "version" => { if let Ok(t) = std::fs::read_to_string(&ap) { let _ = std::fs::write(&ap, t.replace("\"format_version\": 1", "\"format_version\": 2")); } }
                 "foreign" => { if let Ok(t) = std::fs::read_to_string(&ap) {
                     let me = archive::root_pair_hash(x, y);
@@ -369,8 +397,12 @@ fn bisync_history(case: &Value, base: &Path) -> Value {
             let ap = archive::archive_path(&archive::root_pair_hash(x, y));
             let arch: Value = std::fs::read(&ap).ok().and_then(|b| serde_json::from_slice(&b).ok()).unwrap_or(Value::Null);
             let entries: Vec<String> = arch.get("entries").and_then(Value::as_object).map(|m| m.keys().cloned().collect()).unwrap_or_default();
+            let digests: BTreeMap<String, String> = arch.get("entries").and_then(Value::as_object).map(|m| m.iter().map(|(k, v)| {
+                let b: Vec<u8> = v["blake3"].as_array().map(|a| a.iter().map(|x| x.as_u64().unwrap_or(0) as u8).collect()).unwrap_or_default();
+                (k.clone(), hex(&b))
+            }).collect()).unwrap_or_default();
             runs.push(json!({"ok": r.is_ok(), "err": r.err().map(|e| e.to_string()), "before": before, "A": fp_json(&ra), "B": fp_json(&rb),
-                             "archive_entries": entries, "archive_epoch": arch.get("epoch").cloned().unwrap_or(Value::Null), "swapped": swapped}));
+                             "archive_entries": entries, "archive_digests": digests, "archive_epoch": arch.get("epoch").cloned().unwrap_or(Value::Null), "swapped": swapped}));
         }
     }
     json!({"runs": runs})
